@@ -487,7 +487,7 @@ def h_dmet_reorder(env, nested, canary=False, q=0, spin=0):
                    f"reordered molecule keeps charge / spin / basis / electron count (q={q}, spin={spin})")
 
 
-def h_dmet_exact(env, variants, q=0, spin=0, solver="fci", exact=True, system="H4"):
+def h_dmet_exact(env, variants, q=0, spin=0, solver="fci", exact=True, system="H4", loose_optimizer=False):
     """AUXILIARY concrete shape (no solver role; numpy/scipy/PySCF numerics end to end): H4 chain split into two halves - every
     fragment-plus-bath space is the whole orbital space - DMET energy == full-CI energy (1e-6), the fragment electron numbers
     sum to the total (1e-5), and every way of naming the same fragments (sizes, nested index lists, relabelled atoms) gives
@@ -504,6 +504,10 @@ def h_dmet_exact(env, variants, q=0, spin=0, solver="fci", exact=True, system="H
         xyz = [("Na", (0.0, 0.0, 0.0)), ("H", (0.0, 0.0, 2.0))]
         mkw = dict(basis="lanl2dz", ecp={"Na": "lanl2dz"})
         extra = {"optimizer": (lambda func, mu0: mu0 if abs(func(mu0)) < 1e-9 else __import__("scipy.optimize").optimize.newton(func, mu0, tol=1e-6))}
+    if loose_optimizer:
+        # documented `optimizer` option with a root search that returns a point it never evaluated (secant step, loose tolerance):
+        # the reported energy is the energy AT the reported chemical potential
+        extra = {"optimizer": (lambda func, mu0: __import__("scipy.optimize").optimize.newton(func, mu0, tol=2e-2))}
     es = []
     with shim.concrete_mode():
         mol = SecondQuantizedMolecule(xyz, q=q, spin=spin, uhf=bool(spin), **mkw)
@@ -514,6 +518,11 @@ def h_dmet_exact(env, variants, q=0, spin=0, solver="fci", exact=True, system="H
             e = float(d.simulate())
             dn = float(abs(d._oneshot_loop(d.chemical_potential)))
             es.append(e)
+            if loose_optimizer:
+                env.check_true(abs(float(d.dmet_energy) - e) < 1e-9 and abs(e - e_ref) < 1e-6,
+                               f"DMET[{solver}] fragments {frag}, user optimizer with a loose tolerance: returned energy == energy at the reported chemical potential == full CI",
+                               detail=f"{e} / {float(d.dmet_energy)} vs {e_ref}")
+                continue
             env.check_true(dn < 1e-5, f"DMET[{solver}] fragments {frag}: fragment electron numbers sum to the total", detail=f"difference {dn}")
             if exact:
                 env.check_true(abs(e - e_ref) < 1e-6, f"DMET[{solver}] fragments {frag} (fragment + bath = whole space): energy == full CI", detail=f"{e} vs {e_ref}")
@@ -578,6 +587,7 @@ def shapes(tier, seed):
     out.append(Shape("dmet/reorder/dication_10_32", h_dmet_reorder, dict(nested=[[1, 0], [3, 2]], q=2, spin=0)))
     halves = [[2, 2], [[0, 1], [2, 3]], [[1, 0], [3, 2]], [[2, 3], [0, 1]]]
     out.append(Shape("aux/dmet_exact/H4/fci", h_dmet_exact, dict(variants=halves)))
+    out.append(Shape("aux/dmet_exact/H4/fci/loose-optimizer", h_dmet_exact, dict(variants=halves[:2], loose_optimizer=True)))
     # two electrons only: the bath of a half is one orbital, fragment + bath is NOT the whole space -> relabelling invariance only
     out.append(Shape("aux/dmet_exact/NaH-ecp/fci", h_dmet_exact, dict(variants=[[2], [[0, 1]], [[1, 0]]], system="NaH-ecp")))
     out.append(Shape("aux/dmet_relabel/H4-dication/fci", h_dmet_exact, dict(variants=halves[:3], q=2, exact=False)))
